@@ -31,7 +31,7 @@ func describe(x any) built {
 // tryBuild runs a constructor under a watchdog (a queue constructor may block)
 func tryBuild(f func() any) (string, built) {
 	var b built
-	cr := guarded(2*time.Second, func() { b = describe(f()) })
+	cr := guarded(5*time.Second, func() { b = describe(f()) })
 	if cr.kind == "panic" {
 		return "panic:" + cr.pc, b
 	}
@@ -174,7 +174,7 @@ func sizesFor(tier string) []int {
 
 func safeParse(src string) J {
 	var v any
-	cr := guarded(2*time.Second, func() { v = notation.ParseSource(src) })
+	cr := guarded(5*time.Second, func() { v = notation.ParseSource(src) })
 	if cr.kind != "ret" {
 		return J{"t": "unparsed"}
 	}
